@@ -178,6 +178,9 @@ func verifC03KeyID(kids map[int]bool, k data_model.Key) int {
 // value inserted into the sketch for abstract hash id h (ids are small positive integers)
 func verifC03UniqValue(h int) uint64 { return uint64(h)*7919 + 13 }
 
+// the abstract id of the 32-bit hash 0, which ChUnique keeps outside its table (hasZeroItem)
+const verifC03ZeroHashID = 999
+
 // marshalled ChUnique -> (skip degree, sorted 32-bit hashes)
 func verifC03ParseUnique(b []byte) (skip int, hashes []uint32, err error) {
 	if len(b) < 2 {
@@ -195,12 +198,18 @@ func verifC03ParseUnique(b []byte) (skip int, hashes []uint32, err error) {
 	return skip, hashes, nil
 }
 
+// the 32-bit hash of a value, read from the marshalled state of a sketch that holds only it
+var verifC03MarshalBroken string
+
 func verifC03Hash32(v uint64) uint32 {
 	var u data_model.ChUnique
 	u.Insert(v)
-	_, hs, _ := verifC03ParseUnique(u.MarshallAppend(nil))
-	if len(hs) != 1 {
-		panic("verif: one value, not one hash")
+	_, hs, err := verifC03ParseUnique(u.MarshallAppend(nil))
+	if len(hs) != 1 || err != nil {
+		if verifC03MarshalBroken == "" {
+			verifC03MarshalBroken = fmt.Sprintf("a sketch holding the single value %d marshals to %d hashes (%v)", v, len(hs), err)
+		}
+		return 0
 	}
 	return hs[0]
 }
@@ -241,13 +250,28 @@ func verifC03Encode(rnd *rand.Rand, mv *tlstatshouse.MultiValue, fm *uint32, p *
 	verifC03SetHosts(mv, fm, p)
 	if len(p.Uniq) != 0 || len(p.bigUniq) != 0 {
 		var u data_model.ChUnique
+		zero := false
 		for _, h := range p.Uniq {
+			if h == verifC03ZeroHashID {
+				zero = true
+				continue
+			}
 			u.Insert(verifC03UniqValue(h))
 		}
 		for _, v := range p.bigUniq {
 			u.Insert(v)
 		}
-		mv.SetUniques(string(u.MarshallAppend(nil)), fm)
+		state := u.MarshallAppend(nil)
+		if skip, hs, err := verifC03ParseUnique(state); zero && err == nil {
+			// no value is known to hash to 0, so that hash is put into the marshalled state by hand
+			// (first item, as MarshallAppend writes it)
+			state = binary.AppendUvarint([]byte{byte(skip)}, uint64(len(hs)+1))
+			state = binary.LittleEndian.AppendUint32(state, 0)
+			for _, h := range hs {
+				state = binary.LittleEndian.AppendUint32(state, h)
+			}
+		}
+		mv.SetUniques(string(state), fm)
 	}
 	if !p.Set {
 		return
@@ -529,6 +553,10 @@ func (run *verifC03Run) execute(res *verifkit.Result, ri int, events *[]map[stri
 		for pi := range it.Parts {
 			p := &it.Parts[pi]
 			for _, h := range p.Uniq {
+				if h == verifC03ZeroHashID {
+					hashID[0] = h
+					continue
+				}
 				hashID[verifC03Hash32(verifC03UniqValue(h))] = h
 			}
 			if p.Uniq == nil {
@@ -764,6 +792,9 @@ func verifC03RandomPart(rnd *rand.Rand, top int) verifC03Part {
 			p.Uniq = append(p.Uniq, v)
 		}
 		sort.Ints(p.Uniq)
+		if rnd.Intn(5) == 0 {
+			p.Uniq = append(p.Uniq, verifC03ZeroHashID)
+		}
 	case kind >= 5: // percentile
 		for v, w := range bag {
 			p.Cent = append(p.Cent, [2]int{v, w})
@@ -828,7 +859,7 @@ func verifC03BigUniq(rnd *rand.Rand, target int) verifC03Run {
 	run := verifC03Run{bts: []uint32{verifC03T0}, big: true}
 	seen := map[uint32]bool{}
 	var vals []uint64
-	for len(seen) < target {
+	for len(seen) < target && verifC03MarshalBroken == "" {
 		v := rnd.Uint64()
 		if h := verifC03Hash32(v); !seen[h] {
 			seen[h] = true
@@ -893,6 +924,10 @@ func TestVerifC03(t *testing.T) {
 	var events []map[string]any
 	for ri := range runs {
 		runs[ri].execute(res, ri, &events)
+		if verifC03MarshalBroken != "" {
+			res.Mismatch(verifkit.Mismatch{Beh: runs[ri].items, Want: "the unique state written is the state held", Got: verifC03MarshalBroken, Sig: "roundtrip-unique"})
+			break
+		}
 		if res.Counters["mismatches_total"] >= 20 { // enough witnesses; a broken decoder can make every run slow
 			res.Note("stopped after run %d of %d: 20 mismatches recorded", ri, len(runs))
 			break
